@@ -19,8 +19,10 @@ LEVEL_TEXT = (
     'EDATE/EOMONTH clipping; DAYS; DATEDIF D/M/Y; YEARFRAC bases 2 and 3; the fraction of a serial is the time of '
     'day. Partial: YEARFRAC bases 0/4 away from 28 February, basis 1 inside a common year; datetime->serial '
     'only at midnight (D45). The model is tied to the running code by a differential run: every serial in the '
-    'thorough tier, (y,m,d) triples far out of range, month offsets, all ordered pairs of sampled dates, and '
-    'formulas through ModelCompiler/Evaluator.')
+    'thorough tier, (y,m,d) triples far out of range, month offsets, all ordered pairs of sampled dates, '
+    'formulas through ModelCompiler/Evaluator, and the statement\'s identities evaluated as whole formulas '
+    '(=, <>, <, <=, >, >=, -, + between DATE/EDATE/EOMONTH/DAYS results, serial cells and literals, day '
+    'differences around 59/60/61 and large ones) and by typed calls of OP_SUB/OP_ADD/OP_EQ/OP_NE/OP_LT/OP_GT/OP_GE.')
 LEVEL_NOTE = (
     'Trusted: Lean kernel (axioms propext, Classical.choice, Quot.sound), the hand-written model (validated by '
     'correspondence, not proved equal to the Python), Python datetime/dateutil/yearfrac as modelled by hand, '
@@ -42,14 +44,16 @@ TRUSTED = [
     'IEEE-754 rounding and microsecond rounding of timedelta are not modelled: time-of-day inputs are multiples '
     'of 1/128 day (whole seconds, exact in binary), quotients are compared within 4 ulp',
     'argument coercion by validate_args is modelled in C08; here arguments arrive as int, float or datetime',
+    'the operator functions (OP_SUB, OP_ADD, comparisons) between a DateTime and a Number are not modelled in Lean: '
+    'they are checked against integer arithmetic on the serials (a serial IS the date in the 1900 system)',
 ]
 ASSUMPTIONS = [
     'serial 60 (Excel\'s fictitious 1900-02-29) and serials outside 1..2958465 are outside every clause of the '
     'statement: compared code-vs-model only',
     'results outside 1900-01-01..9999-12-31 (DATE/EDATE/EOMONTH overflowing year 9999) are outside the '
     'statement; results before 1900-01-01 must be an error value',
-    'DAYS and DATEDIF "D" over a pair that straddles the fictitious 29 February 1900 are not compared with the '
-    'reference (the statement does not say whether that day counts)',
+    'DAYS, DATEDIF "D" and date subtraction/comparison identities over a pair that straddles the fictitious '
+    '29 February 1900 are not compared with the reference (the statement does not say whether that day counts)',
     'DATEDIF units MD, YM, YD and unknown units, DATEDIF with start > end, YEARFRAC with a non-whole basis: '
     'statement silent, compared code-vs-model only',
     'YEARFRAC bases 0 and 4 are compared where the US and European conventions coincide with the plain count: '
@@ -514,6 +518,174 @@ def known_of(op, args, real, impl, spec):
     return None
 
 
+
+# ---------------------------------------------------------------------------------- identities as formulas
+
+GAPS = [0, 1, 2, 7, 28, 29, 30, 31, 57, 58, 59, 60, 61, 62, 63, 70, 120, 365, 366, 1000, 36525, 146097,
+        -1, -2, -31, -58, -59, -60, -61, -62, -365, -1000]
+
+
+def add_months(d, k):
+    idx = d.year * 12 + (d.month - 1) + k
+    y, m = divmod(idx, 12)
+    m += 1
+    if not 1 <= y <= 9999:
+        return None
+    last = (datetime.date(y + (m == 12), m % 12 + 1, 1) - datetime.timedelta(days=1)).day if (y, m) != (9999, 12) else 31
+    return datetime.date(y, m, min(d.day, last))
+
+
+def in_system(n):
+    return 1 <= n <= MAXSER and n != 60
+
+
+def identity_rows(rng, big):
+    """rows (a, b): two whole serials on the same side of the fictitious 29 Feb 1900; every gap a-b of GAPS
+    (the differences around 59/60/61 are where a day count can be mistaken for a serial) plus random ones"""
+    anchors = [1, 2, 30, 59, 61, 62, 100, 121, 130, 366, 1462, 36526, 36585, 43831, 43890, 43891, 44255, 45351,
+               73051, MAXSER, MAXSER - 60, MAXSER - 61]
+    if not big:
+        anchors = [1, 59, 61, 62, 121, 366, 43831, 43890, 44255, MAXSER, MAXSER - 60]
+    anchors += [rng.randint(61, 80000) for _ in range(30 if big else 2)]
+    anchors += [rng.randint(61, MAXSER) for _ in range(30 if big else 2)]
+    rows = []
+    for a in anchors:
+        gaps = GAPS + [rng.randint(0, 70) for _ in range(6 if big else 2)] + [rng.randint(-3000, 3000000)]
+        if not big:
+            gaps = [g for g in gaps if g in (0, 1, 31, 59, 60, 61, 62, 366, -1, -60, -61, 36525)] + gaps[-3:]
+        for g in gaps:
+            b = a - g
+            if in_system(a) and in_system(b) and (a < 60) == (b < 60):
+                rows.append((a, b))
+    return list(dict.fromkeys(rows))
+
+
+def identity_formulas(a, b, r, flt):
+    """the statement's identities about the serials a (cell A<r>) and b (cell B<r>), written as formulas;
+    (formula, expected wire value) — expected values from Python's datetime and integer arithmetic only"""
+    da, db = date_of_serial(a), date_of_serial(b)
+    A, B = f'A{r}', f'B{r}'
+    DA = f'DATE({da.year},{da.month},{da.day})'
+    DB = f'DATE({db.year},{db.month},{db.day})'
+    DYA = f'DATE(YEAR({A}),MONTH({A}),DAY({A}))'
+    t, f_ = 'B:1', 'B:0'
+    g = a - b
+
+    def bw(x):
+        return t if x else f_
+    out = [
+        (f'={DYA}={A}', t), (f'={A}={DYA}', t), (f'={DYA}<>{A}', f_), (f'={A}<>{DYA}', f_),
+        (f'={DYA}-{A}', 'I:0'), (f'={A}-{DYA}', 'I:0'), (f'={DYA}<{A}', f_), (f'={DYA}>={A}', t),
+        (f'={DA}={a}', t), (f'={DA}<>{a}', f_), (f'={DA}={a + 1}', f_), (f'={a}={DA}', t),
+        (f'={DA}={A}', t), (f'={DA}={B}', bw(g == 0)), (f'={DA}<>{B}', bw(g != 0)),
+        (f'={DA}<{B}', bw(a < b)), (f'={DA}<={B}', bw(a <= b)), (f'={DA}>{B}', bw(a > b)),
+        (f'={A}>={DB}', bw(a >= b)), (f'={DA}={DB}', bw(g == 0)), (f'={DA}>{DB}', bw(a > b)),
+        (f'=EDATE({A},0)={A}', t), (f'=EDATE({A},0)-{A}', 'I:0'), (f'=EOMONTH({A},0)>={A}', t),
+        (f'=DAYS({A},{B})={A}-{B}', t), (f'=DAYS({A},{B})', f'I:{g}'), (f'={A}-{B}', f'I:{g}'),
+        (f'={DA}-{DB}', f'I:{g}'), (f'={DA}-{B}', f'I:{g}'), (f'={A}-{DB}', f'I:{g}'),
+        (f'={DA}-{b}', f'I:{g}'), (f'={a}-{DB}', f'I:{g}'), (f'={DA}-{B}=DAYS({A},{B})', t),
+        (f'={DB}+{g}={A}', t) if g >= 0 else (f'={DB}-{-g}={A}', t),
+        (f'={DB}+{A}-{B}', f'I:{a}'),
+    ]
+    last = (datetime.date(da.year + (da.month == 12), da.month % 12 + 1, 1) - datetime.timedelta(days=1)).day \
+        if (da.year, da.month) != (9999, 12) else 31
+    out.append((f'=EOMONTH({A},0)-{A}', f'I:{last - da.day}'))
+    for k in (1, 2, -1, 12):
+        e = add_months(da, k)
+        if e is not None and e >= datetime.date(1900, 1, 1):
+            se = serial_of_date(e)
+            if (se < 60) == (a < 60):
+                out.append((f'=EDATE({A},{k})-{A}', f'I:{se - a}'))
+                out.append((f'=EDATE({A},{k})={se}', t))
+    if flt:
+        out.append((f'={DA}-{float(b)!r}', f'I:{g}'))
+    return out
+
+
+def typed_operator_cases(F, a, b):
+    """the same differences and comparisons by typed direct calls of the operator functions: the left or
+    right operand is what DATE/EDATE return, the other one a plain serial (int, float, Number)"""
+    from xlcalculator.xlfunctions import func_xltypes as ft
+    da, db = date_of_serial(a), date_of_serial(b)
+    g = a - b
+    DA = F['DATE'](da.year, da.month, da.day)
+    DB = F['DATE'](db.year, db.month, db.day)
+    EA = F['EDATE'](a, 0)
+    out = []
+    for left in (DA, EA):
+        for right in (b, float(b), ft.Number(b)):
+            out.append(('OP_SUB', left, right, f'I:{g}'))
+            out.append(('OP_EQ', left, right, 'B:1' if g == 0 else 'B:0'))
+            out.append(('OP_NE', left, right, 'B:0' if g == 0 else 'B:1'))
+            out.append(('OP_LT', left, right, 'B:1' if a < b else 'B:0'))
+            out.append(('OP_GE', left, right, 'B:1' if a >= b else 'B:0'))
+    for left in (a, float(a), ft.Number(a)):
+        out.append(('OP_SUB', left, DB, f'I:{g}'))
+        out.append(('OP_EQ', left, DB, 'B:1' if g == 0 else 'B:0'))
+        out.append(('OP_GT', left, DB, 'B:1' if a > b else 'B:0'))
+    out.append(('OP_SUB', DA, DB, f'I:{g}'))
+    out.append(('OP_EQ', DA, DB, 'B:1' if g == 0 else 'B:0'))
+    if in_system(b + 0) and g >= 0:
+        out.append(('OP_ADD', DB, g, f'I:{a}'))
+        out.append(('OP_ADD', g, DB, f'I:{a}'))
+        out.append(('OP_SUB', DA, g, f'I:{b}'))
+    return out
+
+
+def run_identities(ctx, res, big):
+    """section 4: the identities of the statement evaluated AS FORMULAS in a compiled model (operators between
+    date-function results, serial cells and literals) and by typed calls of the operator functions"""
+    from xlcalculator.xlfunctions import xl
+    from xlcalculator import ModelCompiler, Evaluator
+    F = xl.FUNCTIONS
+    rows = identity_rows(ctx.rng, big)
+    nform = ntyped = 0
+    for part in chunks(rows, 40):
+        cells, checks = {}, []
+        for i, (a, b) in enumerate(part):
+            r = i + 1
+            cells[f'Sheet1!A{r}'] = a
+            cells[f'Sheet1!B{r}'] = b if i % 3 else float(b)
+            for j, (formula, expect) in enumerate(identity_formulas(a, b, r, i % 2 == 0)):
+                addr = f'Sheet1!{common_col(j + 3)}{r}'
+                cells[addr] = formula
+                checks.append((addr, formula, a, b, expect))
+        ev = Evaluator(ModelCompiler().read_and_parse_dict(cells))
+        for addr, formula, a, b, expect in checks:
+            got = common.call_real(ev.evaluate, addr)
+            nform += 1
+            res.evaluations += 1
+            res.nontrivial.add(formula + f'|{a}|{b}')
+            if not same_value(got, expect):
+                res.violations.append({'what': 'an identity of the 1900 date system does not hold as a formula',
+                                       'input': {'formula': formula, 'cells': {'A': a, 'B': b}},
+                                       'expected': expect, 'got': got})
+    for a, b in rows[::(1 if big else 2)]:
+        for name, left, right, expect in typed_operator_cases(F, a, b):
+            got = common.call_real(F[name], left, right)
+            ntyped += 1
+            res.evaluations += 1
+            if not same_value(got, expect):
+                res.violations.append({'what': f'{name} between a date result and a serial is not the day arithmetic '
+                                               'of the 1900 date system',
+                                       'input': {'op': name, 'left': repr(left), 'right': repr(right),
+                                                 'serials': [a, b]},
+                                       'expected': expect, 'got': got})
+    res.nontrivial.extra += ntyped
+    res.count('identity_formulas', nform)
+    res.count('typed_operator_calls', ntyped)
+    res.count('identity_rows', len(rows))
+
+
+def common_col(k):
+    """spreadsheet column letters of a 1-based index"""
+    s = ''
+    while k:
+        k, rem = divmod(k - 1, 26)
+        s = chr(65 + rem) + s
+    return s
+
+
 def run(ctx):
     from xlcalculator.xlfunctions import xl
     import xlcalculator  # noqa: F401
@@ -529,8 +701,12 @@ def run(ctx):
         'centuries, the last 400 days, random ones); DATE on (y,m,d) with months/days far out of range; EDATE/EOMONTH '
         'on sampled month-end dates x month offsets; DAYS, DATEDIF D/M/Y and YEARFRAC bases 0..4 on all ordered pairs '
         'of sampled dates; serial<->datetime with times of day; real code vs the Lean reference (and vs Python\'s '
-        'datetime for the fields) and vs the Lean model; non-trivial = distinct input inside the statement\'s domain '
-        '(the reference determines the result)')
+        'datetime for the fields) and vs the Lean model; identities: rows (a,b) of two serials with every gap of a '
+        'fixed list (0,1,..,57..63,70,365,366,36525,146097, negatives) plus random gaps, ~37 formulas per row such '
+        'as DATE(YEAR(A),MONTH(A),DAY(A))=A, EDATE(A,0)=A, EOMONTH(A,0)>=A, DAYS(A,B)=A-B, DATE(..)-DATE(..), '
+        'DATE(..)-B, A-DATE(..), DATE(..)+k=A evaluated in a compiled model, and the same by typed operator calls '
+        'with int/float/Number operands (expected values from Python datetime and integer arithmetic); '
+        'non-trivial = distinct input inside the statement\'s domain (the reference determines the result)')
     nproc = min(16, os.cpu_count() or 4) if big else 4
 
     # ---- 0. replay of one stored failing input
@@ -669,6 +845,8 @@ def run(ctx):
             res.violations.append({'what': 'subtraction of two dates is not the day difference',
                                    'input': {'formula': f}, 'expected': expect, 'got': got})
     res.count('via_formula', via)
+    # ---- 4. the identities of the statement as whole formulas, and typed operator calls
+    run_identities(ctx, res, big)
     if res.drift:
         res.notes.append(f'{len(res.drift)} model/implementation differences where the code still meets the reference')
     return res
